@@ -8,6 +8,8 @@ from __future__ import annotations
 
 import ast
 import itertools
+import os
+import sys
 import time
 from dataclasses import dataclass, field
 
@@ -107,6 +109,7 @@ class Engine:
         self.houdini = houdini if houdini is not None else {}   # loop id -> surviving candidate labels
         self.houdini_fixed = houdini is not None and not ctx.finite
         self.trial = 0                    # >0: inside a Houdini trial pass (VCs assumed, not checked)
+        self.skip_names = set()
         self.solver_time = 0.0
         self.queries = 0
         self.cur: Contract | None = None
@@ -139,8 +142,11 @@ class Engine:
             s.add(a)
         s.add(z3.Not(goal))
         r = s.check()
-        self.solver_time += time.time() - t0
+        dt = time.time() - t0
+        self.solver_time += dt
         self.queries += 1
+        if dt > 1.0 and os.environ.get('PYVC_TRACE'):
+            print(f'[slow query {dt:.1f}s {r} finite={self.ctx.finite} trial={self.trial}] goal={str(goal)[:300]}', file=sys.stderr)
         if r == z3.unsat:
             return 'discharged', ''
         if r == z3.sat:
@@ -180,6 +186,10 @@ class Engine:
         """Emit (and immediately decide) an obligation; the goal is assumed afterwards."""
         full = f'{self.cur_fkey}/{name}'
         if self.trial:
+            st.assume(goal)
+            return True
+        if full in self.skip_names:
+            # already refuted in finite scope: the unbounded attempt would only burn its budget on `unknown`
             st.assume(goal)
             return True
         ob = self.obligations.get(full)
@@ -396,7 +406,7 @@ class Engine:
 
 
 # --------------------------------------------------------------------------- expression evaluator
-SPEC_FUNCS = {'forall', 'exists', 'implies', 'iff', 'old', 'card', 'dom', 'ite', 'empty', 'INV', 'subset', 'disjoint',
+SPEC_FUNCS = {'sadd', 'sdel', 'forall', 'exists', 'implies', 'iff', 'old', 'card', 'dom', 'ite', 'empty', 'INV', 'subset', 'disjoint',
               'fresh_of', 'keys', 'isnone', 'some', 'unopt', 'select', 'tuple_of', 'typed_empty'}
 
 
@@ -896,6 +906,8 @@ class CallEval:
                 return h(n)
             if nm in self.R.macros and self.e.spec:
                 return self.macro(nm, n)
+            if nm in self.R.deffuncs and self.e.spec:
+                return self.deffunc(nm, n)
             if nm in self.R.funcs:
                 return self.ufunc(nm, n)
             # record constructor / class used as pure constructor
@@ -908,6 +920,34 @@ class CallEval:
         raise Unsupported('call form')
 
     # ---- spec functions
+    def fn_sadd(self, n):
+        s_ = self.e.ev(n.args[0])
+        x = self.eng.coerce(self.e.ev(n.args[1]), s_.t.args[0])
+        return SV(s_.t, z3.Store(s_.z, x.z, True))
+
+    def fn_sdel(self, n):
+        s_ = self.e.ev(n.args[0])
+        x = self.eng.coerce(self.e.ev(n.args[1]), s_.t.args[0])
+        return SV(s_.t, z3.Store(s_.z, x.z, False))
+
+    def deffunc(self, nm, n):
+        d = self.R.deffuncs[nm]
+        pts = [parse_type(t) for t in d['params'].values()]
+        args = []
+        for a, t in zip(n.args, pts):
+            v = self.e.ev(a, t)
+            v = self.e.fix_empty(v, SV(t, None))[0] if v.t.k == 'emptycoll' else v
+            if v.t.k in ('set', 'list') and t.k in ('set', 'list'):
+                v = SV(t, v.z)
+            args.append(self.eng.coerce(v, t))
+        rt = parse_type(d['res'])
+        if self.ctx.finite or getattr(self.eng, 'inline_deffuncs', False):
+            sub = State([dict(zip(d['params'], args))], self.e.heap, self.e.st.pc, self.e.st.old)
+            e = Evaluator(self.eng, sub, spec=True, heap=self.e.heap)
+            v = e.ev(ast.parse(d['body'].strip(), mode='eval').body)
+            return SV(rt, v.z) if v.t.k in ('set', 'list') and rt.k in ('set', 'list') else v
+        return self.eng.apply_func(nm, args, rt, pts)
+
     def _lambda_quant(self, n, univ):
         *sorts, lam = n.args
         if not isinstance(lam, ast.Lambda):
@@ -921,7 +961,15 @@ class CallEval:
             frames = self.e.st.frames + [{nm: SV(t, k) for nm, t, k in zip(names, ts, ks)}]
             e = self.e.sub(frames=frames)
             return self.eng.truth(e.ev(lam.body))
-        return SV(BOOL, (self.ctx.forall if univ else self.ctx.exists)(ts, body))
+        pat = None
+        for kw in n.keywords:
+            if kw.arg == 'pat' and isinstance(kw.value, ast.Lambda):
+                def pat(*ks, _l=kw.value):
+                    frames = self.e.st.frames + [{nm: SV(t, k) for nm, t, k in zip(names, ts, ks)}]
+                    e = self.e.sub(frames=frames)
+                    return e.ev(_l.body).z
+        return SV(BOOL, (self.ctx.forall if univ else self.ctx.exists)(ts, body, pat) if pat else
+                  (self.ctx.forall if univ else self.ctx.exists)(ts, body))
 
     def fn_forall(self, n):
         return self._lambda_quant(n, True)
